@@ -63,8 +63,26 @@ let parse_cmp = function
   | "gt" -> PaGt | "ge" -> PaGe | "lt" -> PaLt | "le" -> PaLe | "eq" -> PaEq | "ne" -> PaNe
   | s -> failwith ("bad cmp " ^ s)
 
+(* searched CASE: <nwhen> <haselse> (<cmp> x y r)* [else]  ->  (ops, operands in text order) *)
+let parse_case toks =
+  match toks with
+  | nw :: he :: r ->
+      let rec whens k toks = if k = 0 then ([], [], toks) else
+          (match toks with
+           | c :: r0 ->
+               let (x, r1) = parse_hexp r0 in let (y, r2) = parse_hexp r1 in let (res, r3) = parse_hexp r2 in
+               let (ops, es, rest) = whens (k - 1) r3 in
+               (parse_cmp c :: ops, x :: y :: res :: es, rest)
+           | [] -> failwith "short case") in
+      let (ops, es, rest) = whens (int_of_string nw) r in
+      if he = "1" then let (e, rest') = parse_hexp rest in (ops, es @ [e], rest') else (ops, es, rest)
+  | _ -> failwith "bad case"
+
 let rec parse_hpred = function
   | "?" :: c :: r -> let (x, r1) = parse_hexp r in let (y, r2) = parse_hexp r1 in (PaHCmp (parse_cmp c, x, y), r2)
+  | "C" :: r -> let (ops, es, r1) = parse_case r in (PaHCase (ops, es), r1)
+  | "K" :: c :: r -> let (ops, es, r1) = parse_case r in let (z, r2) = parse_hexp r1 in
+      (PaHCaseCmp (parse_cmp c, ops, es, z), r2)
   | "&" :: r -> let (p, r1) = parse_hpred r in let (q, r2) = parse_hpred r1 in (PaHAnd (p, q), r2)
   | "|" :: r -> let (p, r1) = parse_hpred r in let (q, r2) = parse_hpred r1 in (PaHOr (p, q), r2)
   | _ -> failwith "bad hpred"
@@ -101,9 +119,10 @@ let show_col = function
 let show_row r = "[" ^ String.concat "," (List.map (fun (c, v) -> show_col c ^ "=" ^ show_val v) r) ^ "]"
 let show_rows rs = String.concat "" (List.map show_row rs)
 
-let handle_q (toks : string list) : string =
-  match Win.split_hash toks with
-  | [[mode; ng; di; hl; lim]; items; having; order; input; output] ->
+(* the query sections shared by the Q and M lines *)
+let parse_query hdr items having order =
+  match hdr with
+  | [mode; ng; di; hl; lim] ->
       let ngroup = int_of_string ng in
       let has_limit = (hl = "1") in
       let items = (match items with
@@ -113,39 +132,110 @@ let handle_q (toks : string list) : string =
       let having = (match having with ["-"] -> None | l -> Some (fst (parse_hpred l))) in
       let qy = { pq_ngroup = nat_of ngroup; pq_items = items; pq_distinct = (di = "1"); pq_having = having;
                  pq_order = parse_keys order; pq_limit = nat_of (int_of_string lim) } in
-      let inp = (match input with
-          | n :: r ->
-              let rec go k toks = if k = 0 then [] else
-                  let (ks, r1) = take ngroup toks in
-                  (match r1 with
-                   | t :: u :: w :: r2 ->
-                       (List.map parse_val ks, [(O, Win.zs t); (S O, Win.zs u); (S (S O), Win.zs w)]) :: go (k - 1) r2
-                   | _ -> failwith "short input row") in
-              go (int_of_string n) r
-          | [] -> failwith "no input") in
+      (mode, ngroup, has_limit, lim, qy)
+  | _ -> failwith "bad header"
+
+let parse_input ngroup input =
+  match input with
+  | n :: r ->
+      let rec go k toks = if k = 0 then [] else
+          let (ks, r1) = take ngroup toks in
+          (match r1 with
+           | t :: u :: w :: r2 ->
+               (List.map parse_val ks, [(O, Win.zs t); (S O, Win.zs u); (S (S O), Win.zs w)]) :: go (k - 1) r2
+           | _ -> failwith "short input row") in
+      go (int_of_string n) r
+  | [] -> failwith "no input"
+
+let count_groups inp = List.length (List.sort_uniq compare (List.map (fun (k, _) -> List.map show_val k) inp))
+
+(* one delivered batch against the checker and the model.
+   The engine enumerated its groups in an order we cannot see; any order that puts the delivered groups
+   first, as delivered, reproduces the delivered batch iff the batch is correct.
+   `Chk: the property is violated on this batch; `Diff: only model and implementation disagree *)
+let judge qy has_limit lim inp out =
+  let order = List.map (fun row -> List.map (function Some v -> v | None -> PaNull)
+                           (pa_row_key qy.pq_ngroup row)) out in
+  let model = pa_run qy order inp in
+  let same = List.length model = List.length out && List.for_all2 pa_same_row model out in
+  match pa_chk qy has_limit inp out with
+  | Some c ->
+      `Chk (Printf.sprintf "chk %s limit=%s groups=%d impl=%s model=%s%s" (clause_name c)
+              (if has_limit then lim else "none") (count_groups inp) (show_rows out) (show_rows model)
+              (if same then "" else " (and model differs)"))
+  | None ->
+      if not same then `Diff (Printf.sprintf "diff batch impl=%s model=%s" (show_rows out) (show_rows model))
+      else `Ok
+
+let handle_q (toks : string list) : string =
+  match Win.split_hash toks with
+  | [hdr; items; having; order; input; output] ->
+      let (mode, ngroup, has_limit, lim, qy) = parse_query hdr items having order in
+      let inp = parse_input ngroup input in
       (match output with
        | nb :: r ->
            let nb = int_of_string nb in
            if nb > 1 then "chk batches more_than_one_batch" else
            let out = if nb = 0 then [] else
                (match r with n :: r' -> fst (parse_rows (int_of_string n) r') | [] -> failwith "no batch") in
-           (* the engine enumerated its groups in an order we cannot see; any order that puts the delivered
-              groups first, as delivered, reproduces the delivered batch iff the batch is correct *)
-           let order = List.map (fun row -> List.map (function Some v -> v | None -> PaNull)
-                                    (pa_row_key qy.pq_ngroup row)) out in
-           let model = pa_run qy order inp in
-           let verdict = pa_chk qy has_limit inp out in
-           let ngroups = List.length (List.sort_uniq compare (List.map (fun (k, _) -> List.map show_val k) inp)) in
-           (match verdict with
-            | Some c ->
-                Printf.sprintf "chk %s limit=%s groups=%d impl=%s model=%s" (clause_name c)
-                  (if has_limit then lim else "none") ngroups (show_rows out) (show_rows model)
-            | None ->
-                let same = List.length model = List.length out && List.for_all2 pa_same_row model out in
-                if not same then Printf.sprintf "diff batch impl=%s model=%s" (show_rows out) (show_rows model)
-                else if ngroups >= 2 && (having <> None || qy.pq_order <> [] || has_limit) then "ok nt"
+           (match judge qy has_limit lim inp out with
+            | `Chk s | `Diff s -> s
+            | `Ok ->
+                if count_groups inp >= 2 && (qy.pq_having <> None || qy.pq_order <> [] || has_limit) then "ok nt"
                 else if mode = "p" then "ok nt" else "ok")
        | [] -> failwith "no output")
+  | _ -> "bad line"
+
+(* M: one query, K consecutive batches, and what two consumers that kept every delivered batch hold at
+   the END of the run (the result channel read only then; a sink that retained the slices it was given).
+   Sections after the query: K # flags (1 = something was delivered for batch k, 0 = nothing, ? = not
+   observed) # input_1 # .. # input_K # channel: n batches # sink: n batches.
+   Batches are delivered in order and an empty result is not delivered, so the k-th input is judged
+   against the next held batch when a delivery is expected for it (by the flag, else by the model). *)
+let handle_m (toks : string list) : string =
+  match Win.split_hash toks with
+  | hdr :: items :: having :: order :: [k] :: flags :: rest ->
+      let (_, ngroup, has_limit, lim, qy) = parse_query hdr items having order in
+      let k = int_of_string k in
+      let (inputs, rest) = take k rest in
+      let inputs = List.map (parse_input ngroup) inputs in
+      let parse_seq sec = (match sec with
+          | nb :: r ->
+              let rec go n toks = if n = 0 then [] else
+                  (match toks with
+                   | c :: r' -> let (rows, r'') = parse_rows (int_of_string c) r' in rows :: go (n - 1) r''
+                   | [] -> failwith "short batch list") in
+              go (int_of_string nb) r
+          | [] -> failwith "no batch list") in
+      (match rest with
+       | [chan; sink] ->
+           let consumers = [("channel", parse_seq chan); ("sink", parse_seq sink)] in
+           let expect = List.map2 (fun f inp -> match f with
+               | "1" -> true | "0" -> false
+               | _ -> pa_run qy [] inp <> []) flags inputs in
+           let worst = ref `Ok in
+           let note v = (match !worst, v with
+               | `Chk _, _ -> () | _, `Chk _ -> worst := v
+               | `Diff _, _ -> () | _, `Diff _ -> worst := v | _ -> ()) in
+           List.iter (fun (cname, held) ->
+               let tag i s = Printf.sprintf "%s batch=%d/%d consumer=%s" s (i + 1) k cname in
+               let held = ref held in
+               List.iteri (fun i (inp, exp) ->
+                   let out = (if not exp then Some [] else
+                       match !held with b :: r -> held := r; Some b | [] -> None) in
+                   match out with
+                   | None -> note (`Chk (tag i "chk batches batch_not_delivered_or_lost"))
+                   | Some out ->
+                       (match judge qy has_limit lim inp out with
+                        | `Chk s -> note (`Chk (tag i s)) | `Diff s -> note (`Diff (tag i s)) | `Ok -> ()))
+                 (List.combine inputs expect);
+               if !held <> [] then note (`Chk (Printf.sprintf "chk batches more_batches_than_expected consumer=%s extra=%s"
+                                                  cname (String.concat "|" (List.map show_rows !held)))))
+             consumers;
+           (match !worst with
+            | `Chk s | `Diff s -> s
+            | `Ok -> if k >= 2 && List.exists (fun e -> e) expect then "ok nt" else "ok")
+       | _ -> "bad line")
   | _ -> "bad line"
 
 let handle_s (toks : string list) : string =
@@ -174,6 +264,7 @@ let handle (toks : string list) : string =
   match toks with
   | "Q" :: r -> handle_q r
   | "S" :: r -> handle_s r
+  | "M" :: r -> handle_m r
   | ["V"; a; b; c] ->
       let pv t = if t = "m" then None else Some (parse_val t) in
       let m = (match pa_cmp_val (pv a) (pv b) with Lt -> "-1" | Eq -> "0" | Gt -> "1") in
